@@ -114,7 +114,7 @@ def main(argv):
         cfgs = list(c.configs(tier))
         stride = 1
         if getattr(c, 'primary', None) is not None and prop not in c.primary:
-            stride = getattr(c, 'secondary_stride', 4) * (1 if tier == 'quick' else 3)
+            stride = getattr(c, 'secondary_stride', 4) * (1 if tier == 'quick' else 8)
         if stride > 1:
             # secondary contract for this property: every stride-th configuration, offset chosen by the seed
             cfgs = cfgs[seed % stride::stride]
